@@ -180,6 +180,25 @@ def run(ctx):
         releasers = [f for f in tree_fns if calls_to(prog, f, r['release'])]
         allocators = [f for f in tree_fns if calls_to(prog, f, r['alloc'])]
         clear_fn = [f for f in tree_fns if f.trait_method() == 'clear']
+        # ---- the release function itself: its parameter goes onto the free list on EVERY path, exactly once ------------
+        for rf in r['release']:
+            rb = rf.body
+            pushes = [c for c in rb.calls if c.callee_name() == 'push' and prog.classify(c) == 'std' and c.args and vec_field_of(prog, c.args[0]) == r['free']
+                      and len(c.args) == 2 and strip(c.args[1]).kind == 'param']
+            per_block = {}
+            for c in pushes:
+                per_block[c.point[0]] = per_block.get(c.point[0], 0) + 1
+            counts = release_counts(rb, per_block)
+            probs = []
+            for ret in rb.cfg.returns:
+                cs = counts.get(ret, set())
+                if 0 in cs:
+                    probs.append('a path through %s returns without putting the slot on the free list: the caller has unlinked it, so it is lost (and clear, which counts what it releases, miscounts)' % rf.name)
+                if 2 in cs:
+                    probs.append('a path through %s pushes the slot twice' % rf.name)
+            if any(in_loop(rb, c.point[0]) for c in pushes):
+                probs.append('the push is inside a loop')
+            ctx.add('POOL', rf, 'release-always', 'violation' if probs else 'ok', '; '.join(sorted(set(probs))) or 'the release function puts its parameter on the free list exactly once on every path', PROPS_POOL + ['C10'] + {'map': ['C04'], 'set': ['C05'], 'key': ['C01']}.get(rf.family, []), rf.line)
         # ---- who-may-call ------------------------------------------------------------------
         sel = select_removal(prog, tree, r, tree_fns)
         S, T0, W, bad, removal = sel['S'], sel['T0'], sel['W'], sel['bad'], sel['removal']
@@ -820,6 +839,19 @@ def check_clear(ctx, prog, c, r, store_field):
                             tr = edge_truth(t, succ)
                             if tr is not None and (tr if d.args[0] == 'Ne' else not tr) and b.cfg.pred[succ] == [s] and b.cfg.dominates(succ, call.point[0]):
                                 guarded = True
+                                # the test itself must be made for every visited slot: not only when the other child is (not) empty
+                                other = 'right' if side == 'left' else 'left'
+                                for s0, d0 in b.switch_discr.items():
+                                    d0 = strip(d0)
+                                    if s0 == s or d0.kind != 'bin' or d0.args[0] not in ('Ne', 'Eq'):
+                                        continue
+                                    x0, y0 = strip(d0.args[1]), strip(d0.args[2])
+                                    for p0, q0 in ((x0, y0), (y0, x0)):
+                                        if prog.is_empty_ref(q0) and p0.kind == 'load' and prog.node_field(p0) and prog.node_field(p0)[1] == (other,) \
+                                                and strip(prog.node_field(p0)[0]) is strip(prog.node_field(arg)[0]):
+                                            for succ0 in set(b.cfg.succ[s0]):
+                                                if b.cfg.pred[succ0] == [s0] and b.cfg.dominates(succ0, s) and not all(b.cfg.dominates(z, s) for z in set(b.cfg.succ[s0]) if z in b.cfg.can_return):
+                                                    problems.append('the %s child of a visited slot is examined only on one side of the test of its %s child: when both are present, the %s subtree is never released' % (side, other, side))
                                 if not b.cfg.postdominates(call.point[0], succ):
                                     problems.append('a non-empty %s child is not always released (the release is under a further condition)' % side)
         if not guarded:
